@@ -28,16 +28,17 @@ type Node struct {
 	Addr string
 	srv  *grpc.Server
 
-	mu       sync.Mutex
-	Outcome  string // "ok" | "err" | "slow"
-	release  chan struct{}
-	Arrived  chan string // method name, one per call that reached the handler
-	Finished chan string
-	Items    map[uuid.UUID][]Item    // partition -> search answer
-	Sizes    map[uuid.UUID][2]uint64 // partition -> len, bytes
-	Calls    []string                // log of calls: "PartitionInfo:<pid>" ...
-	Writes   []string                // applied writes "insert:<id>" ...
-	Down     bool                    // refuse by closing the listener
+	mu         sync.Mutex
+	Outcome    string // "ok" | "err" | "slow"
+	release    chan struct{}
+	Arrived    chan string // method name, one per call that reached the handler
+	Finished   chan string
+	Items      map[uuid.UUID][]Item    // partition -> search answer
+	BatchItems [][3]string             // every item of every partition batch request received: kind, partition, id
+	Sizes      map[uuid.UUID][2]uint64 // partition -> len, bytes
+	Calls      []string                // log of calls: "PartitionInfo:<pid>" ...
+	Writes     []string                // applied writes "insert:<id>" ...
+	Down       bool                    // refuse by closing the listener
 }
 
 func NewNode(id uint64) *Node {
@@ -70,6 +71,7 @@ func (n *Node) Reset(outcome string, gated bool) {
 	n.Finished = make(chan string, 64)
 	n.Calls = nil
 	n.Writes = nil
+	n.BatchItems = nil
 }
 
 func (n *Node) Release() {
@@ -179,6 +181,7 @@ func (n *Node) batch(ctx context.Context, kind string, req *pb.PartitionBatchReq
 	errs := map[string]string{}
 	for _, it := range req.GetItems() {
 		id, _ := uuid.FromBytes(it.GetId())
+		n.BatchItems = append(n.BatchItems, [3]string{kind, pid.String(), id.String()})
 		// scripted rule: ids whose last byte is odd fail at the remote partition
 		if id[15]%2 == 1 {
 			errs[id.String()] = "scripted item failure"
@@ -222,6 +225,13 @@ func (n *Node) WaitFinished(d time.Duration) bool {
 	case <-time.After(d):
 		return false
 	}
+}
+
+// BatchSnapshot returns every batch item received since the last Reset.
+func (n *Node) BatchSnapshot() [][3]string {
+	n.mu.Lock()
+	defer n.mu.Unlock()
+	return append([][3]string{}, n.BatchItems...)
 }
 
 func (n *Node) Snapshot() (calls, writes []string) {
